@@ -215,24 +215,25 @@ package refopts
 //@   pure
 //@   ensures result1 == nil ==> result0 != nil
 
-// augmentFromConfig asks for exactly the entries of this group
-// ("refgroup.<symbol>", so entries of other sections or groups cannot leak in)
-// and applies them in git's order (loop step clauses): each include /
+// augmentFromConfig reads the section "refgroup" and applies, in git's order
+// (loop step clauses), exactly the entries whose key splits at its last dot
+// into this group's symbol and a variable name — the same split that decides
+// which groups exist — so entries of other groups change nothing (F8: the
+// earlier key-prefix query leaked the entries of "foo" into "foo."): each include /
 // exclude[Regexp] entry is combined onto the filter built so far with its exact
 // value, `name` sets the display name, any other key changes nothing.
 //@ func (*refGroup).augmentFromConfig
 //@   modifies rg.filter, rg.Name
-//@   call 0 GetConfig assert keyof(arg_0) == catkeys("refgroup.", rg.Symbol)
-// ... and the prefix must name the subsection exactly: GetConfig treats a
-// prefix that ends in '.' as already containing the separator, so it would
-// return the entries of the group named by the prefix without its last dot.
-//@   call 0 GetConfig assert @exact-subsection len(rg.Symbol) == 0 || rg.Symbol[len(rg.Symbol)-1] != '.'
-//@   loop 0 step entry.Key == "name" ==> same(rg.Name, entry.Value) && rg.filter == prev(rg.filter)
-//@   loop 0 step entry.Key == "include" ==> same(rg.Name, prev(rg.Name)) && (forall r string :: apply(rg.filter, r) == ((prev(rg.filter) != nil && apply(prev(rg.filter), r)) || (len(entry.Value) == 0 || prefixMatch(entry.Value, r))))
-//@   loop 0 step entry.Key == "exclude" ==> same(rg.Name, prev(rg.Name)) && (forall r string :: apply(rg.filter, r) == ((prev(rg.filter) == nil || apply(prev(rg.filter), r)) && !(len(entry.Value) == 0 || prefixMatch(entry.Value, r))))
-//@   loop 0 step entry.Key == "includeregexp" ==> same(rg.Name, prev(rg.Name)) && (forall r string :: apply(rg.filter, r) == ((prev(rg.filter) != nil && apply(prev(rg.filter), r)) || fullMatchK(keyof(entry.Value), keyof(r))))
-//@   loop 0 step entry.Key == "excluderegexp" ==> same(rg.Name, prev(rg.Name)) && (forall r string :: apply(rg.filter, r) == ((prev(rg.filter) == nil || apply(prev(rg.filter), r)) && !fullMatchK(keyof(entry.Value), keyof(r))))
-//@   loop 0 step entry.Key != "name" && entry.Key != "include" && entry.Key != "exclude" && entry.Key != "includeregexp" && entry.Key != "excluderegexp" ==> same(rg.Name, prev(rg.Name)) && rg.filter == prev(rg.filter)
+//@   call 0 GetConfig assert keyof(arg_0) == keyof("refgroup")
+//@   call 0 splitKey as sk
+//@   call 0 splitKey assert same(arg_0, entry.Key)
+//@   loop 0 step sk0 != rg.Symbol ==> same(rg.Name, prev(rg.Name)) && rg.filter == prev(rg.filter)
+//@   loop 0 step sk0 == rg.Symbol && sk1 == "name" ==> same(rg.Name, entry.Value) && rg.filter == prev(rg.filter)
+//@   loop 0 step sk0 == rg.Symbol && sk1 == "include" ==> same(rg.Name, prev(rg.Name)) && (forall r string :: apply(rg.filter, r) == ((prev(rg.filter) != nil && apply(prev(rg.filter), r)) || (len(entry.Value) == 0 || prefixMatch(entry.Value, r))))
+//@   loop 0 step sk0 == rg.Symbol && sk1 == "exclude" ==> same(rg.Name, prev(rg.Name)) && (forall r string :: apply(rg.filter, r) == ((prev(rg.filter) == nil || apply(prev(rg.filter), r)) && !(len(entry.Value) == 0 || prefixMatch(entry.Value, r))))
+//@   loop 0 step sk0 == rg.Symbol && sk1 == "includeregexp" ==> same(rg.Name, prev(rg.Name)) && (forall r string :: apply(rg.filter, r) == ((prev(rg.filter) != nil && apply(prev(rg.filter), r)) || fullMatchK(keyof(entry.Value), keyof(r))))
+//@   loop 0 step sk0 == rg.Symbol && sk1 == "excluderegexp" ==> same(rg.Name, prev(rg.Name)) && (forall r string :: apply(rg.filter, r) == ((prev(rg.filter) == nil || apply(prev(rg.filter), r)) && !fullMatchK(keyof(entry.Value), keyof(r))))
+//@   loop 0 step sk0 == rg.Symbol && sk1 != "name" && sk1 != "include" && sk1 != "exclude" && sk1 != "includeregexp" && sk1 != "excluderegexp" ==> same(rg.Name, prev(rg.Name)) && rg.filter == prev(rg.filter)
 
 //@ property C15: (*refGroup).augmentFromConfig
 
